@@ -58,6 +58,19 @@ def rule_wrap_atomics(ctx):
     r.instance("AtomicEpoch::load == Epoch{data: self.data.load(ord)}", ok)
     if not ok:
         bad(b.name, "AtomicEpoch::load is not a plain atomic load of its own cell", b)
+    if AE + "new" in prog.bodies:
+        b, ps = _ret_paths(ctx, AE + "new")
+        ok = len(ps) == 1
+        if ok:
+            ret = strip(ps[0].ret)
+            ok = isinstance(ret, tuple) and ret[0] == "agg" and ret[1] == "ebr_impl::epoch::AtomicEpoch" and len(ret[3]) == 1
+            if ok:
+                v = strip(ret[3][0])
+                ok = isinstance(v, tuple) and v[0] == "call" and norm(v[1]) == "std::sync::atomic::Atomic::new" and \
+                    _field_of_arg(v[2][0], "data", 1)
+        r.instance("AtomicEpoch::new == AtomicEpoch{data: AtomicUsize::new(epoch.data)}", ok)
+        if not ok:
+            bad(b.name, "AtomicEpoch::new does not start the cell at exactly the given epoch", b)
     b, ps = _ret_paths(ctx, AE + "store")
     ok = len(ps) == 1
     if ok:
@@ -537,6 +550,23 @@ def rule_defer_wrapper(ctx):
             if not ok:
                 r.violate(du.name, "defer", "the Deferred handed to Local::defer is not the one built from the closure", du.loc(0))
     r.require(n, 4, "deferral wrapper paths")
+    # Guard::defer_destroy(ptr) - how the list and the queue retire their nodes - defers `ptr.drop()`, it does not run it
+    DD = "ebr_impl::guard::Guard::defer_destroy"
+    if DD in prog.bodies:
+        db, dps = _ret_paths(ctx, DD)
+        r.functions.add(DD)
+        okd = len(dps) == 1
+        if okd:
+            du_ = [e for e in dps[0].events if e.kind in ("call", "hof") and e.target == "ebr_impl::guard::Guard::defer_unchecked"]
+            direct = [e for e in _calls(dps[0]) if norm(e.target or "") == "ebr_impl::pointers::RawShared::drop"]
+            okd = len(du_) == 1 and not direct
+            if okd:
+                cl = prog.closures_of(DD)
+                okd = len(cl) == 1 and [norm(c.target or "") for (_, _, c) in cl[0].calls()].count("ebr_impl::pointers::RawShared::drop") == 1
+        r.instance("Guard::defer_destroy == defer_unchecked(move || ptr.drop())", okd)
+        if not okd:
+            r.violate(DD, "destroy", "defer_destroy does not hand exactly `ptr.drop()` to defer_unchecked (or frees the node "
+                      "itself): a list entry or queue node is freed while another thread's traversal still reads it", db.loc(0))
     return r
 
 
@@ -655,6 +685,35 @@ def rule_ebr_init(ctx):
     r.instance("Local::collector == &*self.collector.get()", okk2)
     if not okk2:
         r.violate(kb.name, "collector", "Local::collector does not return the participant's own collector", kb.loc(0))
+    # the collector's queue starts as one sentinel that both ends point to and that has no successor
+    QN = "ebr_impl::sync::queue::Queue::<T>::new"
+    if QN in prog.bodies:
+        qb, qps = _ret_paths(ctx, QN)
+        r.functions.add(QN)
+        okq = len(qps) == 1
+        if okq:
+            p = qps[0]
+            sent = [e for e in _calls(p) if norm(e.target or "") == "ebr_impl::pointers::RawShared::from_owned"]
+            stores = [e for e in _calls(p) if norm(e.target or "") in ("ebr_impl::pointers::RawAtomic::store",)]
+            news = [e for e in p.events if e.kind == "agg" and e.adt == "ebr_impl::sync::queue::Node"]
+            okq = len(sent) == 1 and len(news) == 1
+            if okq:
+                nv = dict(zip(news[0].value[5], news[0].value[3]))
+                nxt = strip(nv.get("next"))
+                okq = isinstance(nxt, tuple) and nxt[0] == "call" and norm(nxt[1]) == "ebr_impl::pointers::RawAtomic::null"
+            if okq:
+                to_head = [e for e in stores if "Queue.head" in show(e.args[0]) and strip(e.args[1]) == sent[0].result]
+                to_tail = [e for e in stores if "Queue.tail" in show(e.args[0]) and strip(e.args[1]) == sent[0].result]
+                other = [e for e in stores if e not in to_head and e not in to_tail]
+                # (or the sentinel is put into the struct literal directly)
+                lit = [e for e in p.events if e.kind == "agg" and e.adt == "ebr_impl::sync::queue::Queue"]
+                inlit = lambda f: any(lit and sent[0].result in list(subterms(dict(zip(x.value[5], x.value[3])).get(f, ()))) for x in lit)
+                okq = (bool(to_head) or inlit("head")) and (bool(to_tail) or inlit("tail")) and not other
+        r.instance("Queue::new: head == tail == one sentinel whose next is null", okq)
+        if not okq:
+            r.violate(QN, "sentinel", "a new queue is not `head == tail == sentinel, sentinel.next == null`: push links onto the "
+                      "tail and pop reads head.next - an end that does not point to the sentinel (or a sentinel with a "
+                      "successor) loses or invents elements", qb.loc(0))
     r.require(len(r.instances), 9, "constructor obligations")
     return r
 
